@@ -782,6 +782,18 @@ def judge_p2sc(chk, case):
     if not good:
         return ("broken", "p2sc:model-vs-code", f"count={count} ({why}): code {obs} / model {rep}",
                 {"part": "p2sc", "case": case, "code": obs, "model": rep})
+    if kind == "done" and not rep["fallback"] and "counts" in obs:
+        shape = p2sc_shape(case, count)
+        if shape is not None:
+            diff, largest, cs = shape
+            if len(cs) >= 16:
+                chk.branch("p2sc-many-states")
+            if diff < 0 and -diff > largest:
+                chk.branch("p2sc-excess-exceeds-largest-count")
+            if diff < 0 and sum(1 for a, b in zip(cs, obs["counts"]) if a != b) >= 2:
+                chk.branch("p2sc-excess-spread-over-several-states")
+            if diff >= 2:
+                chk.branch("p2sc-deficit-of-several-units")
     return None
 
 
@@ -832,9 +844,69 @@ def gen_p2sc(rng):
     return case
 
 
+def gen_p2sc_crowded(rng):
+    """Many outcomes of comparable weight and a request of the same order as their number: the expected counts lie
+    around 0.5 .. 2.5, so the rounded table is off by SEVERAL units while no state holds more than 1-3 counts.  The
+    repair then has to be spread over several states (excess larger than the largest single count) or has to add
+    several units at once (deficit).  All numbers are dyadic with a perturbed sum of exactly 1, so the float
+    computation of the code is exact and the model comparison is on every count."""
+    count = rng.choice([4, 5, 8, 10, 16, 20, 40, 70, rng.randint(4, 120)])
+    D = 2 ** 16
+    up = rng.random() < 0.7
+    ws = [rng.uniform(1.0, 2.49)]          # one state reaches a whole count: no fall-back to direct sampling
+    while sum(ws) < count:
+        r = rng.random()
+        if up:      # mostly rounded up
+            w = rng.uniform(0.5, 0.99) if r < 0.75 else (rng.uniform(1.5, 1.99) if r < 0.85 else
+                                                         (0.0 if r < 0.9 else rng.uniform(0.0, 2.5)))
+        else:       # mostly rounded down
+            w = rng.uniform(1.0, 1.49) if r < 0.6 else (rng.uniform(2.0, 2.49) if r < 0.8 else
+                                                        (rng.uniform(0.0, 0.49) if r < 0.9 else rng.uniform(0.0, 2.5)))
+        ws.append(w)
+    a = [int(round(w * D / count)) for w in ws]
+    over = sum(a) - D
+    i = len(a) - 1
+    while over > 0:                        # trim from the end so that the perturbed table sums to exactly 1
+        t = min(a[i], over)
+        a[i] -= t
+        over -= t
+        i -= 1
+    if over < 0:
+        a[-1] -= over
+    order = list(range(len(a)))
+    rng.shuffle(order)
+    a = [a[j] for j in order]
+    k = len(a)
+    target = [F(x, D) for x in a]
+    if rng.random() < 0.4:
+        ps = list(target)                  # the table itself is crowded, no noise
+    else:
+        base = D // k                      # a flat table, the noise makes it crowded
+        ps = [F(base, D)] * k
+        ps[rng.randrange(k)] += F(D - base * k, D)
+    ns = [t - p for t, p in zip(target, ps)]
+    picks = [rng.randint(0, 5 * k) for _ in range(rng.choice([0, 2, 8 * k, 8 * k, 8 * k]))]
+    fb = [rng.randrange(k) for _ in range(min(count, 64))]
+    return {"ps": [str(p) for p in ps], "ns": [str(x) for x in ns], "count": count, "picks": picks, "fb": fb}
+
+
+def p2sc_shape(case, count):
+    """(deficit, largest rounded count, number of states) of the table before the repair, computed exactly
+    (`round(Fraction)` is round-half-to-even); None when the fall-back route is taken."""
+    ps = [F(p) for p in case["ps"]]
+    ns = [F(x) for x in case["ns"]]
+    pert = [max(p + n, F(0)) for p, n in zip(ps, ns)]
+    s = sum(pert)
+    if count < 1 or s == 0 or max(pert) / s * count < 1:
+        return None
+    cs = [round(x / s * count) for x in pert]
+    return count - sum(cs), max(cs), cs
+
+
 def handle_p2sc(chk, case):
     res = judge_p2sc(chk, case)
-    chk.count("p2sc_states", len(case["ps"]))
+    k = len(case["ps"])
+    chk.count("p2sc_states", k if k <= 6 else ("7-15" if k < 16 else ("16-63" if k < 64 else "64+")))
     chk.count("p2sc_count", case["count"] if case["count"] in (0, 1, 2, 3, 5, 7, 10, 17, 100, 1000) else "other")
     chk.case(("B", tuple(case["ps"]), tuple(case["ns"]), case["count"], tuple(case["picks"][:4]),
               json.dumps(case.get("kw"), sort_keys=True)), nontrivial=case["count"] >= 2 and len(case["ps"]) >= 2,
@@ -898,6 +970,179 @@ def conversions(chk, n):
         elif not ok:
             chk.fail("broken", "conv:model-vs-code", f"sample_count_to_probs({counts}): code {got} / model {rep}",
                      {"part": "c2p", "counts": counts})
+
+
+# ------------------------------------------------------------------------------------------------
+# B2. DIRECT ORACLE with the real random generators: totals of every conversion
+# ------------------------------------------------------------------------------------------------
+def gen_totals_case(rng):
+    """A probability table (weights, normalised when it is built), a request and how the request is passed."""
+    regime = rng.choice(["crowded", "crowded", "crowded", "crowded", "small", "large", "skewed"])
+    if regime == "crowded":
+        # many outcomes of similar probability, a request of the same order as their number
+        k = rng.choice([8, 16, 32, 64, 120, rng.randint(8, 200)])
+        spread = rng.choice([0.0, 0.0, 0.2, 0.5])
+        w = [1.0 + spread * (rng.random() - 0.5) for _ in range(k)]
+        count = max(1, int(k * rng.choice([0.25, 0.5, 0.625, 0.625, 0.75, 0.75, 1.0, 1.5, 2.0])))
+    elif regime == "small":
+        k = rng.randint(1, 6)
+        w = [rng.random() + 0.01 for _ in range(k)]
+        count = rng.choice([0, 1, 2, 3, 5, 17])
+    elif regime == "large":
+        k = rng.randint(2, 40)
+        w = [rng.random() + 0.01 for _ in range(k)]
+        count = rng.choice([100, 1000, 5000, rng.randint(50, 3000)]) if rng.random() < 0.97 else 10 ** 5
+    else:
+        # one dominant outcome and a long tail
+        k = rng.randint(4, 80)
+        w = [1.0] + [rng.choice([1e-3, 1e-2, 0.05]) * rng.random() for _ in range(k - 1)]
+        count = rng.choice([1, 2, 10, k, 3 * k])
+    how = rng.choice(["count", "count", "max_samples", "max_shots", "both"])
+    other = rng.choice([count, count + 3, 2 * count + 1])
+    return {"w": w, "count": count, "how": how, "other": other, "regime": regime, "seed": rng.randrange(2 ** 32)}
+
+
+def totals_request(case):
+    """-> (positional count, keywords, the count `_deduce_count` has to arrive at)"""
+    c, how = case["count"], case["how"]
+    if how == "count":
+        return c, {}, c
+    if how == "max_samples":
+        return None, {"max_samples": c}, c
+    if how == "max_shots":
+        return None, {"max_shots": c}, c
+    a, b = (c, case["other"]) if case["seed"] % 2 else (case["other"], c)
+    return None, {"max_samples": a, "max_shots": b}, min(a, b)
+
+
+def judge_totals(chk, case, count_branches=True):
+    """Real `probs_to_sample_count`, `probs_to_samples`, `sample_count_to_samples`, `samples_to_sample_count`,
+    `sample_count_to_probs` with the real generators (seeded per case so that the case replays): the totals the
+    property states, evaluated directly."""
+    import numpy as np
+    import perceval as pcvl
+    from perceval.utils import BSDistribution
+    from perceval.utils import conversion
+    keys = key_states(len(case["w"]))
+    tot = sum(case["w"])
+    bsd = BSDistribution()
+    for st, x in zip(keys, case["w"]):
+        bsd[st] = x / tot
+    support = set(keys)
+    pos, kw, want = totals_request(case)
+    if how_zero_keyword(case):
+        # `max_shots or max_samples` treats 0 as absent: documented quirk of _deduce_count (model: pyOr); not a total
+        return None
+    want_n = want if want >= 1 else 0
+    replay = {"part": "totals", "case": case}
+    drawn = []
+    real_normal = np.random.normal
+
+    def spy_normal(*a, **k):
+        v = real_normal(*a, **k)
+        drawn.append((k.get("scale", a[1] if len(a) > 1 else None), v))
+        return v
+
+    pcvl.random_seed(case["seed"])
+    try:
+        with mock.patch.object(np.random, "normal", spy_normal):
+            res = conversion.probs_to_sample_count(bsd, pos, **kw)
+    except Exception as e:  # noqa: BLE001
+        return ("violation", "totals:p2sc-raises", f"probs_to_sample_count({len(keys)} states, {pos}, {kw}) raised "
+                                                   f"{type(e).__name__}: {e}", replay)
+    vals = [res[st] for st in res.keys()]
+    total = sum(int(v) for v in vals)
+    if total != want_n or any(int(v) != v or v < 0 for v in vals) or any(st not in support for st in res.keys()):
+        foreign = [str(st) for st in res.keys() if st not in support]
+        return ("violation", "totals:p2sc-total-not-count",
+                f"probs_to_sample_count over {len(keys)} states ({case['regime']}), request {pos} {kw} (= {want}): the "
+                f"table sums to {total}, smallest entry {min(vals, default=0)}, foreign keys {foreign} "
+                f"[pcvl.random_seed({case['seed']})]", replay)
+    if count_branches and want >= 1 and len(drawn) == len(keys):
+        # which repair was needed (float replica of the rounding, for the coverage counters only)
+        pert = [max(x / tot + d[1], 0) for x, d in zip(case["w"], drawn)]
+        sp = sum(pert)
+        if sp > 0 and max(pert) / sp * want >= 1:
+            cs = [round(x / sp * want) for x in pert]
+            diff = want - sum(cs)
+            chk.branch("totals-p2sc-rounded")
+            if diff < 0 and -diff > max(cs):
+                chk.branch("totals-excess-exceeds-largest-count")
+            if diff < -1:
+                chk.branch("totals-excess-of-several-units")
+            if diff > 1:
+                chk.branch("totals-deficit-of-several-units")
+        else:
+            chk.branch("totals-p2sc-fallback")
+    # the other conversions on the same table
+    try:
+        smp = conversion.probs_to_samples(bsd, pos, **kw)
+        n_smp, bad = len(smp), [str(x) for x in smp if x not in support]
+    except Exception as e:  # noqa: BLE001
+        return ("violation", "totals:p2s-raises", f"probs_to_samples({pos}, {kw}) raised {type(e).__name__}: {e}",
+                replay)
+    if n_smp != want or bad:
+        return ("violation", "totals:p2s-length", f"probs_to_samples over {len(keys)} states, request {pos} {kw} "
+                                                  f"(= {want}) returned {n_smp} samples, outside the support: "
+                                                  f"{bad[:3]}", replay)
+    try:
+        return _totals_tail(conversion, res, total, pos, kw, want, replay)
+    except Exception as e:  # noqa: BLE001
+        return ("violation", "totals:conversion-raises",
+                f"converting a count table of {total} back to samples / probabilities raised {type(e).__name__}: {e}",
+                replay)
+
+
+def _totals_tail(conversion, res, total, pos, kw, want, replay):
+    if total:
+        back = conversion.sample_count_to_samples(res, pos, **kw)
+        nokw = conversion.sample_count_to_samples(res)
+        held = {st for st in res.keys() if res[st] > 0}
+        if len(back) != want or len(nokw) != total or any(x not in held for x in list(back) + list(nokw)):
+            return ("violation", "totals:sc2s-length",
+                    f"sample_count_to_samples of a table of {total}: {len(back)} samples for the request {pos} {kw} "
+                    f"(= {want}), {len(nokw)} without a request; all drawn from the table's states: "
+                    f"{all(x in held for x in list(back) + list(nokw))}", replay)
+        again = conversion.samples_to_sample_count(back)
+        if sum(again.values()) != len(back):
+            return ("violation", "totals:s2sc-total", f"samples_to_sample_count of {len(back)} samples sums to "
+                                                      f"{sum(again.values())}", replay)
+        pr = conversion.sample_count_to_probs(res)
+        if not core.close(sum(pr.values()), 1.0) or any(
+                not core.close(pr[st], float(F(int(res[st]), total))) for st in pr.keys()):
+            return ("violation", "totals:sc2p", f"sample_count_to_probs of a table of {total} is not count/total "
+                                                f"(mass {sum(pr.values())})", replay)
+    return None
+
+
+def how_zero_keyword(case):
+    _, kw, _ = totals_request(case)
+    return len(kw) == 1 and list(kw.values())[0] == 0
+
+
+def totals_part(chk, n):
+    rng = chk.rng
+    for _ in range(n):
+        case = gen_totals_case(rng)
+        res = judge_totals(chk, case)
+        chk.count("totals_regime", case["regime"])
+        chk.count("totals_how", case["how"])
+        chk.case(("T", case["seed"], len(case["w"]), case["count"], case["how"]),
+                 nontrivial=len(case["w"]) >= 2 and case["count"] >= 2, sample=None)
+        if res is not None and first_of(chk, res[0], res[1]):
+            # shrink: fewer states (keep the request), as long as the same failure shows under the same seed
+            kind, sig, what, replay = res
+            cur = case
+            improved = True
+            while improved and len(cur["w"]) > 2:
+                improved = False
+                for cut in (len(cur["w"]) // 2, len(cur["w"]) - 1):
+                    cand = dict(cur, w=cur["w"][:cut])
+                    r = judge_totals(chk, cand, count_branches=False)
+                    if r is not None and r[1] == sig:
+                        cur, (kind, sig, what, replay), improved = cand, r, True
+                        break
+            chk.fail(kind, sig, what, replay)
 
 
 # ================================================================================================
@@ -981,7 +1226,14 @@ def build_proc(spec, backend):
                            indistinguishability=nz["indistinguishability"],
                            g2_distinguishable=nz["g2_distinguishable"])
     p = pcvl.Processor(backend, spec["m"], noise=noise)
-    p.add(0, pcvl.Unitary(pcvl.Matrix(gens.haar(spec["m"], spec["useed"]))))
+    if spec.get("unitary") == "dft":
+        # a balanced interferometer: one photon leaves on every mode with the same probability
+        m = spec["m"]
+        u = [[complex(math.cos(2 * math.pi * i * j / m), math.sin(2 * math.pi * i * j / m)) / math.sqrt(m)
+              for j in range(m)] for i in range(m)]
+        p.add(0, pcvl.Unitary(pcvl.Matrix(u)))
+    else:
+        p.add(0, pcvl.Unitary(pcvl.Matrix(gens.haar(spec["m"], spec["useed"]))))
     for h, v in spec["heralds"].items():
         p.add_herald(int(h), v)
     if spec["detectors"]:
@@ -1141,6 +1393,109 @@ def limits_part(chk, n_specs):
 
 
 # ------------------------------------------------------------------------------------------------
+# C2. Sampler on a strong-simulation processor: samples / sample_count are CONVERTED from probabilities
+# ------------------------------------------------------------------------------------------------
+def gen_wide_spec(rng):
+    """A noiseless processor with MANY outcomes of comparable probability (Haar unitary on 6..32 modes), with or
+    without a herald / post-selection: what `Sampler(...).sample_count(n)` converts with probs_to_sample_count."""
+    m, n = rng.choice([(6, 2), (8, 2), (8, 1), (12, 1), (12, 2), (16, 1), (24, 1), (32, 1), (5, 3)])
+    kind = rng.choice(["perfect", "perfect", "selected"])
+    spec = {"kind": kind, "m": m, "useed": rng.randrange(10 ** 6), "heralds": {}, "ps": None, "filter": None,
+            "noise": None, "detectors": None}
+    modes = list(range(m))
+    rng.shuffle(modes)
+    inp = [0] * m
+    for i in modes[:n]:
+        inp[i] = 1
+    if kind == "selected":
+        h = modes[-1]                      # an empty mode
+        v = rng.choice([0, 0, 1])
+        inp[h] = v
+        spec["heralds"] = {str(h): v}
+        if rng.random() < 0.5:
+            spec["ps"] = f"[{modes[-2]}] < 2"
+    spec["input"] = inp
+    if rng.random() < 0.5:
+        spec["unitary"] = "dft"            # outcomes of EQUAL probability for one photon (Haar ones are uneven)
+    return spec
+
+
+def n_outcomes(spec):
+    m = spec["m"] - len(spec["heralds"])
+    n = sum(spec["input"]) - sum(spec["heralds"].values())
+    return math.comb(m + n - 1, n)
+
+
+def judge_strong(chk, spec, via, ms, sh, seed):
+    """One `Sampler(SLOS processor).samples / sample_count` request: the total is exactly min of the limits given
+    (nothing is rejected: the probabilities are already conditional), every state is a legal outcome."""
+    import perceval as pcvl
+    from perceval.algorithm import Sampler
+    replay = {"part": "strong", "spec": spec, "via": via, "ms": ms, "sh": sh, "seed": seed}
+    pcvl.random_seed(seed)
+    try:
+        proc = build_proc(spec, "SLOS")
+        sampler = Sampler(proc) if sh is None else Sampler(proc, max_shots_per_call=sh)
+        job = sampler.samples if via == "sampler.samples" else sampler.sample_count
+        try:
+            with watchdog(CALL_TIMEOUT):
+                res = job.execute_sync(ms)
+        finally:
+            failed = job.is_failed
+        if failed:
+            return ("violation", "strong:unexpected-exception",
+                    f"Sampler(SLOS).{via}({ms}) with max_shots_per_call={sh} failed: {job.status.stop_message}", replay)
+    except Exception as e:  # noqa: BLE001
+        return ("violation", "strong:unexpected-exception",
+                f"Sampler(SLOS).{via}({ms}) with max_shots_per_call={sh} raised {type(e).__name__}: {e}", replay)
+    if via == "sampler.samples":
+        out = [tuple(x) for x in res["results"]]
+        total = len(out)
+    else:
+        out = [tuple(x) for x in res["results"].keys()]
+        vals = list(res["results"].values())
+        total = sum(int(v) for v in vals)
+        if any(v < 0 for v in vals):
+            return ("violation", "strong:negative-count", f"Sampler(SLOS).sample_count({ms}) holds a negative count",
+                    replay)
+    want = min(x for x in (ms, sh) if x is not None)
+    if total != want:
+        return ("violation", "strong:total-not-request",
+                f"Sampler(SLOS processor, {spec['m']} modes, {n_outcomes(spec)} outcomes, max_shots_per_call={sh})."
+                f"{via.split('.')[1]}({ms}) returned a total of {total} instead of {want} "
+                f"[pcvl.random_seed({seed})]", replay)
+    for st in set(out):
+        why = legal_sample(spec, st)
+        if why:
+            return ("violation", "strong:illegal-sample", f"Sampler(SLOS).{via} returned {st} which {why}", replay)
+    chk.branch("strong-" + via.split(".")[1])
+    if spec.get("unitary") == "dft":
+        chk.branch("strong-balanced-interferometer")
+    if want >= 2 and n_outcomes(spec) >= 16 and want <= 2 * n_outcomes(spec):
+        chk.branch("strong-request-of-the-order-of-the-outcomes")
+    return None
+
+
+def strong_part(chk, n_specs, reps):
+    rng = chk.rng
+    for _ in range(n_specs):
+        spec = gen_wide_spec(rng)
+        k = n_outcomes(spec)
+        for _ in range(reps):
+            via = rng.choice(["sampler.sample_count", "sampler.sample_count", "sampler.samples"])
+            ms = rng.choice([max(1, k // 3), max(1, k // 2), max(1, (5 * k) // 8), k, 2 * k, rng.randint(1, 3 * k), 1])
+            sh = rng.choice([None, None, None, ms, max(1, ms // 2), ms + 5])
+            seed = rng.randrange(2 ** 32)
+            res = judge_strong(chk, spec, via, ms, sh, seed)
+            chk.count("strong_via", via)
+            chk.case(("S", spec["useed"], spec["m"], via, ms, sh, seed), nontrivial=ms >= 2, sample=None)
+            if res is not None:
+                if first_of(chk, res[0], res[1]):
+                    chk.fail(*res)
+                break
+
+
+# ------------------------------------------------------------------------------------------------
 # D. seed reproducibility
 # ------------------------------------------------------------------------------------------------
 def seed_paths():
@@ -1229,6 +1584,10 @@ def seed_paths():
             "Processor.source.generate_samples": noisy_processor_inputs}
 
 
+# seed values a truthiness test, a sign test or a 32-bit mask would treat differently; part of EVERY run
+BOUNDARY_SEEDS = [0, 1, 2 ** 32 - 1]
+
+
 def seed_part(chk, seeds):
     import perceval as pcvl
     paths = seed_paths()
@@ -1238,12 +1597,14 @@ def seed_part(chk, seeds):
             pcvl.random_seed(s)
             a = fn()
             # disturb all three generators in between
-            pcvl.random_seed(s + 7919)
+            pcvl.random_seed((s + 7919) % 2 ** 32)
             fn()
             pcvl.random_seed(s)
             b = fn()
             chk.case(("D", name, s), nontrivial=True, sample=None)
             chk.branch("seed-path")
+            if s in BOUNDARY_SEEDS:
+                chk.branch("seed-boundary-value-%d" % s)
             chk.count("seed_paths", name)
             outs[s] = json.dumps(a, default=str)
             if a != b:
@@ -1643,6 +2004,23 @@ def replay_one(chk, rp):
         handle_p2sc(chk, rp["case"])
     elif part == "perfect":
         perfect_path(chk, [rp["n"]])
+    elif part == "totals":
+        # the stored seed first, then its successors (the stored one depends on numpy's / CPython's generators)
+        for k in range(200):
+            res = judge_totals(chk, dict(rp["case"], seed=(rp["case"]["seed"] + k) % 2 ** 32))
+            if res is not None:
+                break
+        chk.case(("T", "replay", rp["case"]["seed"], len(rp["case"]["w"])), nontrivial=True)
+        if res is not None:
+            chk.fail(*res)
+    elif part == "strong":
+        for k in range(200):
+            res = judge_strong(chk, rp["spec"], rp["via"], rp["ms"], rp["sh"], (rp["seed"] + k) % 2 ** 32)
+            if res is not None:
+                break
+        chk.case(("S", "replay", rp["seed"]), nontrivial=True)
+        if res is not None:
+            chk.fail(*res)
     elif part == "limits":
         # the request is for a handful of random samples: repeat it under successive seeds
         import perceval as pcvl
@@ -1667,7 +2045,7 @@ def replay_one(chk, rp):
         if res is not None:
             chk.fail(*res)
     elif part == "seed":
-        seed_part(chk, [rp.get("seed", 0), rp.get("seed", 0) + 1])
+        seed_part(chk, [rp.get("seed", 0), (rp.get("seed", 0) + 1) % 2 ** 32])
     elif part in ("count", "c2p"):
         conversions(chk, 50)
     else:
@@ -1710,6 +2088,13 @@ def run(chk: core.Check):
         "physically-rejected-shot-with-photon-heralds",
         "p2sc-done", "p2sc-done-fallback", "p2sc-empty", "p2sc-needPicks", "count-from-keywords",
         "samples->counts", "counts->probs",
+        "p2sc-many-states", "p2sc-excess-exceeds-largest-count", "p2sc-excess-spread-over-several-states",
+        "p2sc-deficit-of-several-units",
+        "totals-p2sc-rounded", "totals-p2sc-fallback", "totals-excess-exceeds-largest-count",
+        "totals-excess-of-several-units", "totals-deficit-of-several-units",
+        "strong-sample_count", "strong-samples", "strong-request-of-the-order-of-the-outcomes",
+        "strong-balanced-interferometer",
+        "seed-boundary-value-0", "seed-boundary-value-1", "seed-boundary-value-%d" % (2 ** 32 - 1),
         "limits-bound-reached", "limits-empty", "limits-exact-count", "limits-rejected-None-max_samples",
         "limits-rejected-no-limit", "seed-path",
         "gof-perfect", "gof-selected", "gof-noisy", "gof-noisy-selected", "gof-detectors", "gof-everything",
@@ -1745,15 +2130,18 @@ def run(chk: core.Check):
 
     # B
     def p2sc_part():
-        for _ in range(chk.pick(1500, 12000)):
-            handle_p2sc(chk, gen_p2sc(rng))
+        for i in range(chk.pick(1500, 12000)):
+            handle_p2sc(chk, gen_p2sc_crowded(rng) if i % 5 == 4 else gen_p2sc(rng))
 
     timed("B probs_to_sample_count", p2sc_part)
     timed("B conversions", conversions, chk, chk.pick(300, 2000))
+    timed("B2 totals (real generators)", totals_part, chk, chk.pick(3000, 20000))
     # C
     timed("C limits", limits_part, chk, chk.pick(6, 24))
+    timed("C2 Sampler on strong simulation", strong_part, chk, chk.pick(16, 60), chk.pick(60, 120))
     # D
-    timed("D seeds", seed_part, chk, [chk.seed * 1000 + i for i in range(chk.pick(3, 10))])
+    timed("D seeds", seed_part, chk,
+          BOUNDARY_SEEDS + [chk.seed * 1000 + 2 + i for i in range(chk.pick(3, 10))] + [rng.randrange(2 ** 32)])
     # E
     nproc = max(1, min(chk.pick(8, 14), (os.cpu_count() or 2) - 1))
     timed("E2 source emission", source_gof_part, chk, chk.pick(18, 60), chk.pick(50000, 150000))
